@@ -263,7 +263,7 @@ CLASS = {
     "C03": dict(mode="block", cls=_cls({**SCRIPT, "ix": "up", "raw": "up", "ivi": "up", "ivo": "up", "pv": "up", "ps": "out", "sup": "out",
                                         "panic": "up"})),
     # value: input-level results in, merged / action-level values out
-    "C04": dict(mode="seq", cls=_cls({**SCRIPT, "raw": "up", "ix": "up", "ivi": "out", "ivo": "up", "pv": "out", "pvd": "out", "panic": "out"})),
+    "C04": dict(mode="seq", cls=_cls({**SCRIPT, "raw": "up", "ix": "out", "ivi": "out", "ivo": "up", "pv": "out", "pvd": "out", "panic": "out"})),
     # consumption: what later actions read
     "C05": dict(mode="seq", cls=_cls({**SCRIPT, "invorder": "up", "raw": "out", "panic": "up"})),
     # priority order of the registry / of evaluation
